@@ -5,8 +5,8 @@ here = os.path.dirname(os.path.dirname(os.path.abspath(__file__)))
 
 CHECKS = {
  "C19": dict(level="model_checking", design="4/C19, 2/E4",
-   technique="stateless model checking of thread interleavings on the real code: cooperative scheduler + preemption-bounded DFS over an instrumented overlay build (scheduling points at conflict-relevant package-level state, aliases and sync operations; deterministic sync.Pool shim with double-hand-out detection); complemented by a free-running -race pass",
-   text="Every schedule with at most 1 (quick) / 2 (thorough) preemptions of 410 two- and three-thread scenarios over 26 library operations on private values (plus shared read-only use of one decoded message) is executed on the instrumented library; each thread's result must equal its sequential result, no panic, no deadlock, no pool hazard; replay determinism is asserted per scenario, every scenario starts in a fresh process. The race detector pass (2 and 64 goroutines, same bodies) is sampling and labelled as such.",
+   technique="stateless model checking of thread interleavings on the real code: cooperative scheduler + preemption-bounded DFS over an instrumented overlay build (scheduling points at conflict-relevant package-level state, aliases and sync operations; deterministic sync.Pool shim with double-hand-out detection); vector-clock happens-before race analysis over package-level variables on every explored execution; first execution of every scenario process on cold state; complemented by a free-running -race pass with cold-start processes",
+   text="Every schedule with at most 1 (quick) / 2 (thorough) preemptions of ~790 two- and three-thread scenarios over 37 library operations on private values (every exported conversion, all accessors, all message codecs, error paths) plus a shared set of ~400 decoded messages that threads only read while the owner of their input buffers reuses those buffers, is executed on the instrumented library; each thread's result must equal its sequential result, no panic, no deadlock, no pool hazard, no two unordered accesses (one a write) to a package-level variable; replay determinism is asserted per scenario, every scenario starts in a fresh process. The race detector pass (24 cold-start processes, all pairs, 64-goroutine mix, input-reuse against readers) is sampling and labelled as such.",
    note="Scheduling points are derived syntactically from the current tree (package-level variables with a possible write site, their intra-procedural aliases, sync operations). Heap state shared through other channels is only covered by the race pass."),
  "C12": dict(level="exploration", design="4/C12",
    technique="complete enumeration of the small identity domains (all MCC x MNC, all 2^24 AMF ids, all routing indicators) + structured alphabets for TMSI/MSIN/IMEI, against reference coders written from the TS 24.501/24.008/23.003 figures, round trips in both directions",
@@ -17,7 +17,7 @@ CHECKS = {
    text="The library's encoders must be decodable by reference decoders written from the 9.11.x figures to exactly the input lists; the library's NSSAI / LADN-indication decoders must recover reference-encoded lists and reject malformed lengths.",
    note="Trusted: refconv/lists.go. The DNN inside LADN is opaque."),
  "C14": dict(level="exploration", design="4/C14",
-   technique="exhaustive byte-string enumeration per helper (all strings to length 3, alphabet strings beyond, 2-mutation neighbourhoods of valid encodings) in watchdog-isolated worker processes; oracle = no panic / terminates / bounded heap",
+   technique="exhaustive byte-string enumeration per helper (all strings to length 3, alphabet strings beyond incl. an alphabet read from the helper's current source, unit repetition up to 255 octets, 2-mutation neighbourhoods of valid encodings) in watchdog-isolated worker processes (every call announces its input, so a hang is replayable); oracle = no panic / terminates / bounded heap",
    text="Each of 35 byte-input helpers and 4 text-input variants is executed on every byte string of length 0..2 (0..3 thorough), alphabet strings to length 6/7, structured longer strings and the mutation neighbourhood of 12 valid encodings; hangs and heap blow-ups are caught by the worker watchdog and confirmed by single-case replay.",
    note="Element-typed getters are judged on decoder-deliverable lengths (MobileIdentity5GS >= 4 octets, DNN >= 1)."),
  "C15": dict(level="exploration", design="4/C15",
@@ -25,7 +25,7 @@ CHECKS = {
    text="All byte strings up to length 4 (5) over a 32-value alphabet and the mutation neighbourhood of full-coverage encodings must parse without panic, unknown identifiers being errors; rule lists over all operations, flags, 0..15 filters and all ordered pairs of the 18 component types, and description lists over 0..63 parameters and all ordered pairs/triples of the 7 kinds must serialise to the reference bytes and parse back to equal values.",
    note="Trusted: the reference encoder in props/c15.go. Flow labels below 2^19 only."),
  "C16": dict(level="exploration", design="4/C16",
-   technique="exhaustive enumeration: PCO unit lists, all alphabet byte strings to length 6/8 and a 2-mutation neighbourhood into UnMarshal, all 65 536 PDU session bitmaps in both directions",
+   technique="exhaustive enumeration: PCO unit lists, all ordered pairs of units over every identifier the library names, call histories (refused constructor calls, malformed parses) followed by probes, all alphabet byte strings to length 6/8 and a 2-mutation neighbourhood into UnMarshal, all 65 536 PDU session bitmaps in both directions",
    text="Serialise/parse round trip of container lists, 'no invented contents' oracle on arbitrary bytes (every parsed unit must be literally in the input at the reference reader's offset), complete PSI bitmap space.",
    note="A trailing incomplete unit may be dropped silently (allowed by the statement)."),
  "C17": dict(level="exploration", design="4/C17",
@@ -50,12 +50,12 @@ CHECKS = {
    note="Trusted: nothing beyond the laws themselves (no reference needed)."),
  "C01": dict(level="model_checking", design="4.0, 4/C01",
    technique="grammar-state exploration (token trie over the pinned TS 24.501 tables, every prefix) executed on the real decoders + exhaustive 2^24 three-octet headers; panic/termination/allocation oracle in isolated worker processes",
-   text="Every state of the message-grammar explorer (message x mandatory-part choice x optional-token sequence up to the stated depth, every declared length of every length field, every truncation point, 70 000-octet inputs) is rendered and executed through PlainNasDecode, Gmm/GsmMessageDecode and Decode<Msg>; all 2^24 three-octet and all shorter inputs are executed too. A worker watchdog turns hangs and heap blow-ups into violations; allocation is metered with ReadMemStats against 32n+2*65535+16KiB bytes / 4n+64 objects.",
+   text="Every state of the message-grammar explorer (message x mandatory-part choice x optional-token sequence up to the stated depth, every declared length of every length field, every truncation point, 70 000-octet inputs; plus the remaining-length, structured-content, repetition and — where the static extraction finds hand-written decoder or encoder statements — dependency- and content-directed families) is rendered and executed through PlainNasDecode, Gmm/GsmMessageDecode and Decode<Msg>; all 2^24 three-octet and all shorter inputs are executed too. A worker watchdog turns hangs and heap blow-ups into violations; allocation is metered with ReadMemStats against 32n+2*65535+16KiB bytes / 4n+64 objects.",
    note="Trusted: pinned tables only shape the inputs (the oracle is crash/termination/allocation). Shapes deeper than the token depth are not enumerated; the allocation constants are calibrated (DESIGN.md C01)."),
  "C02": dict(level="model_checking", design="4/C02",
    technique="bounded exhaustive enumeration of well-formed message values from the pinned tables (presence subsets, every legal length, content patterns), each encoded/decoded through all three entry-point pairs and compared with reflect.DeepEqual and with a table-driven reference encoder",
    text="Message values are generated from the pinned tables, built with the decoder's allocators, encoded by the real encoders, compared byte for byte with the reference encoding, decoded and compared field for field with the original.",
-   note="Trusted: pinned tables + refcodec encoder. Contents are pattern-based, subsets beyond 3 flips are not enumerated for messages with more than 12 optional elements."),
+   note="Trusted: pinned tables + refcodec encoder. Contents are patterns plus a corpus of structured shapes (nested messages, EAP packets, lists); subsets beyond 3 flips are not enumerated for messages with more than 12 optional elements."),
  "C03": dict(level="model_checking", design="4.0, 4/C03",
    technique="grammar-state exploration; on every accepted execution re-encode/decode/encode fixed-point oracle, byte-exactness for inputs the reference codec classifies as canonical",
    text="All byte strings produced by the grammar explorer that the decoder accepts (reordered, duplicated, junk-containing and alias inputs included) are re-encoded, re-decoded and re-encoded; canonicity is decided by the independent reference codec.",
